@@ -173,7 +173,7 @@ def gen_colsample_pair(rng):
     rng.shuffle(order)
     nf = len(quanti) + len(quali)
     kw = {} if rng.random() < 0.6 else {"thresh_corr": rng.choice([1.0, 0.9])}
-    a = c14.mk_case("classification", y, [quanti[i] for i in order], quali, rng.choice([2, 3, 4, min(5, nf)]),
+    a = c14.mk_case("classification", y, [quanti[i] for i in order], quali, rng.choice([1, 1, 2, 3, 4, min(5, nf)]),
                     None, None, None, None, kw, qnames=[qn[i] for i in order], lnames=ln or None)
     a["colsample"] = float(cs).hex()
     a["rseed"] = rng.randrange(10 ** 6)
@@ -191,7 +191,12 @@ class C15(Prop):
     theorems = ["C15_select_equivariant", "C15_select_input_order_irrelevant", "C15_ranks_monotone",
                 "C15_ranks_antitone", "C15_kruskal_spearman_monotone_invariant", "C15_spearman_abs_neg",
                 "C15_regression_copy_refuted", "C15_regression_negation_refuted",
-                "C15_kruskal_invariant_under_negation", "C15_colsample_samples_partition"]
+                "C15_kruskal_invariant_under_negation", "C15_colsample_samples_partition",
+                "C15_kruskal_upper_bound", "C15_kruskal_perfect_feature_is_maximal",
+                "C15_top_key_returned", "C15_copy_of_target_ranked_first",
+                "C15_copy_of_target_tie_refuted", "C15_chi2_upper_bound", "C15_cramerv2_upper_bound",
+                "C15_cramerv2_perfect_feature_is_maximal",
+                "C15_qualitative_copy_of_binary_target_refuted"]
     rule = ("metamorphic pairs on the real selectors: a C14 frame (8-60 rows, correlated clusters, NaN, "
             "constant columns, binary / multiclass / continuous targets, all measure / filter lists) and "
             "its re-encoding: one quantitative feature negated or multiplied by 2, 3, 0.5, 7 or 10; the "
@@ -206,8 +211,7 @@ class C15(Prop):
             "shuffled list.  Non-trivial = at least one feature returned in the original run; distinct = "
             "(kind, task, measures, filters, #returned, outcome)")
     assumptions = [x for x in c14.C14.assumptions if not x.startswith("colsample")] + [
-        "colsample < 1: the shuffled feature order (random.shuffle) is an oracle read back from the real run; "
-        "n_best >= 2 (with n_best = 1 the pre-selection keeps n_best // 2 = 0 features and select returns [])",
+        "colsample < 1: the shuffled feature order (random.shuffle) is an oracle read back from the real run",
         "two selections are compared as lists when no measure is exactly tied and no association equals "
         "thresh_corr exactly; otherwise any order among tied features is accepted (verdict 4)",
         "the copy of the target must be returned unless n_best returned features are exactly as "
@@ -215,6 +219,14 @@ class C15(Prop):
     trusted_extra = c14.C14.trusted_extra
 
     def corpus(self):
+        import glob
+        import json
+        import os
+        kept = [json.load(open(p))["case"]  # minimised failing pairs kept from earlier runs, run first
+                for p in sorted(glob.glob(os.path.join(C.VERIF, "corpus", "findings", "O4?_c15_*.json")))]
+        return kept + self.corpus_fixed()
+
+    def corpus_fixed(self):
         y = [0.0, 1.0, 2.0, 3.0, 4.0, 5.0, 6.0, 7.0, 8.0, 9.0]
         noise = [3.0, 1.0, 4.0, 1.0, 5.0, 9.0, 2.0, 6.0, 5.0, 3.0]
         a = c14.mk_case("regression", y, [list(y), noise], [], 2, None, None, None, None, {},
@@ -339,8 +351,9 @@ class C15(Prop):
                     len(c14.case_lists(a, type_of(a, f))[0]) >= 2 or c14.case_lists(a, type_of(a, f))[0] == ["chi2"]
                     for f in case["must"]):
                 sig = "second_measure_never_computed"
-            elif tag == "error" and case["kind"] == "copy":
-                sig = None
+            elif tag == "copy" and a.get("colsample") is not None and a["n_best"] == 1:
+                # O42 (fixed by /repo f64757f): the pre-selection kept n_best // 2 = 0 features per sample
+                sig = "colsample_nbest1_preselects_nothing"
             sigs.append(sig)
         if any(s is None for s in sigs):
             return []
